@@ -33,7 +33,7 @@ func (fr *Frame) value(v ssa.Value) (Value, error) {
 func (r *Run) funcValue(fn *ssa.Function, bind []Value) Value {
 	id, ok := r.fnConst[fn]
 	if !ok {
-		id = refLit(uint64(0x800 + len(r.fnConst)))
+		id = refLit(uint64(0x800+len(r.fnConst)) * refStride)
 		r.fnConst[fn] = id
 	}
 	return &Sc{T: id, K: kRef, W: 32, Fn: &FuncV{Fn: fn, Bind: bind}, Ty: fn.Type()}
@@ -502,7 +502,7 @@ func (fr *Frame) execBlock(b *ssa.BasicBlock, st *State) error {
 			if x.Comment == "varargs" {
 				// the argument array of a variadic call (fmt.Errorf): contents are not modelled
 				at := x.Type().(*types.Pointer).Elem()
-				fr.setVal(x, &AddrV{Kind: "arr", Ref: refLit(0xfffe), Ty: at, N: at.Underlying().(*types.Array).Len()})
+				fr.setVal(x, &AddrV{Kind: "arr", Ref: refLit(0xfffe * refStride), Ty: at, N: at.Underlying().(*types.Array).Len()})
 				varargAllocs[x] = true
 				continue
 			}
@@ -946,10 +946,10 @@ func (fr *Frame) fieldAddr(st *State, base Value, ptrT types.Type, field int, in
 		fr.nilCheck(st, p, in)
 	}
 	if isStruct(f.Type()) {
-		return &Sc{T: r.fldRef(namedKey(structT), f.Name(), p.T), K: kRef, W: 32, Ty: types.NewPointer(f.Type())}, nil
+		return &Sc{T: r.fldRefT(structT, f, p.T), K: kRef, W: 32, Ty: types.NewPointer(f.Type())}, nil
 	}
 	if at, ok := f.Type().Underlying().(*types.Array); ok {
-		return &AddrV{Kind: "arr", Ref: r.fldRef(namedKey(structT), f.Name(), p.T), Ty: f.Type(), N: at.Len()}, nil
+		return &AddrV{Kind: "arr", Ref: r.fldRefT(structT, f, p.T), Ty: f.Type(), N: at.Len()}, nil
 	}
 	return &AddrV{Kind: "field", Comp: fieldComp(structT, f), Ref: p.T, Ty: f.Type()}, nil
 }
